@@ -34,6 +34,9 @@ pub enum Clock {
     Real,
     /// returns `now` and then advances it by `step` on every read
     Auto { now: u64, step: u64 },
+    /// returns `now`; advances it by one millisecond after every `every` reads (bursts within one millisecond
+    /// that still let a spin-wait for the next tick terminate)
+    Every { now: u64, every: u64, reads: u64 },
 }
 
 #[derive(Default)]
@@ -150,6 +153,15 @@ fn on_now() -> Option<u64> {
         Clock::Auto { now, step } => {
             let v = *now;
             *now = now.saturating_add(*step);
+            Some(v)
+        }
+        Clock::Every { now, every, reads } => {
+            let v = *now;
+            *reads += 1;
+            if *reads >= (*every).max(1) {
+                *reads = 0;
+                *now = now.saturating_add(1);
+            }
             Some(v)
         }
     }
@@ -304,12 +316,22 @@ pub fn set_clock(c: Clock) {
     *CLOCK.lock().unwrap_or_else(|e| e.into_inner()) = c;
 }
 
+/// Current value of the scripted clock without advancing it (None: real clock).
+pub fn peek_clock() -> Option<u64> {
+    match &*CLOCK.lock().unwrap_or_else(|e| e.into_inner()) {
+        Clock::Real => None,
+        Clock::Auto { now, .. } => Some(*now),
+        Clock::Every { now, .. } => Some(*now),
+    }
+}
+
 /// Scripted clock that never moves backwards: `now` becomes max(requested, current scripted value).
 /// Returns the value the next read will see.
 pub fn set_clock_monotone(ms: u64, step: u64) -> u64 {
     let mut c = CLOCK.lock().unwrap_or_else(|e| e.into_inner());
     let cur = match &*c {
         Clock::Auto { now, .. } => *now,
+        Clock::Every { now, .. } => *now,
         Clock::Real => 0,
     };
     let now = ms.max(cur);
